@@ -1,4 +1,5 @@
 import MM.Props.C07C18
+import MM.Props.MemoTie
 #print axioms MM.Numeric.C18_cumulative_order
 #print axioms MM.Numeric.C18_pointwise_order_partial
 #print axioms MM.Numeric.C18_pointwise_order_fails
@@ -10,3 +11,4 @@ import MM.Props.C07C18
 #print axioms MM.Numeric.C18_cumulative_order_bundle
 #print axioms MM.Numeric.quantile_nonpos
 #print axioms MM.Numeric.quantile_nonneg
+#print axioms MM.Memo.tie_memoised
